@@ -107,8 +107,15 @@ def diagram(case):
                     else:
                         o_q = asked(cd)
                         s_q = asked(sub)
+                    # ... and the class lookup of the ORIGINAL still hands out the original's own nodes: the very objects its
+                    # edges start from
+                    looked = {c: cd.get_wrapped_class(k) for c, k in classes.items()}
+                    own = all(any(w is n for n in cd.wrapped_classes) for w in looked.values())
+                    by_lookup = sorted([c, a.field.public_name, short[a.target.clazz]] for c, w in looked.items()
+                                       for a in cd.associations if a.source == w)
                     ops.append([op, {"orig_asked": o_q, "orig_edges": snapshot(cd, short)["assoc"],
-                                     "sub_asked": s_q, "sub_edges": snapshot(sub, short)["assoc"]}])
+                                     "sub_asked": s_q, "sub_edges": snapshot(sub, short)["assoc"],
+                                     "orig_lookup_hands_out_own_nodes": own, "orig_edges_by_lookup": by_lookup}])
                 elif op == "parent_map":
                     ops.append(["parent_map", len(cd.parent_map) if hasattr(cd.parent_map, "__len__") else 0])
             except Exception as ex:
@@ -133,8 +140,8 @@ def diagram(case):
     return out
 
 
-def generate(classes, order, twice=False):
-    cd = ClassDiagram([classes[c] for c in order])
+def generate(classes, order, twice=False, cd=None):
+    cd = cd or ClassDiagram([classes[c] for c in order])
     orm = ORMatic(class_dependency_graph=cd)
     orm.make_all_tables()
     if twice:
@@ -156,6 +163,9 @@ def orm(case):
         order = ORDERS[case.get("order", 0) % 6]
         text = generate(classes, order)
         out["deterministic"] = text == generate(classes, order) and text == generate(classes, order, twice=True)
+        # two generators over ONE diagram object (a regeneration): the second generates what the first did
+        shared = ClassDiagram([classes[c] for c in order])
+        out["deterministic_over_one_diagram"] = generate(classes, order, cd=shared) == text and generate(classes, order, cd=shared) == text
         # the generated module must depend on this model's modules only (generation is a function of the model, not of what
         # the process generated before)
         import re
@@ -196,6 +206,12 @@ def orm(case):
                 s.add(to_dao(cls()))
             s.commit()
         engine.dispose()
+        # the model's modules executed again (what a second run of the generation script sees: the same classes as new
+        # objects at other addresses, here after some unrelated allocations): the generated text is the same
+        ballast = [type(f"Ballast{i}", (), {}) for i in range(case.get("order", 0) * 3 + 1)]
+        _, classes_b = load_classes(m, case.get("split", False))
+        out["deterministic_across_reload"] = generate(classes_b, order) == text
+        del ballast
     except Exception as ex:
         out["error"] = f"{type(ex).__name__}: {str(ex)[:300]}"
     return out
